@@ -258,6 +258,55 @@ def interleaving_cases(draw):
 # ------------------------------------------------------------------------------------------------
 # clause 5: hash seed (children with different PYTHONHASHSEED)
 # ------------------------------------------------------------------------------------------------
+ORDERS = (("0", "forward"), ("1", "reverse"), ("2", "rotated"), ("4242", "evens-first"), ("random", "forward"))
+
+
+def run_children(cases, tag):
+    """-> {(hashseed, order): [result per call]} from five fresh child interpreters."""
+    here = os.path.dirname(os.path.dirname(os.path.dirname(os.path.abspath(__file__))))
+    work = os.path.join(here, ".work", f"c14-hash-{os.getpid()}-{tag}")
+    os.makedirs(work, exist_ok=True)
+    path = os.path.join(work, "cases.json")
+    with open(path, "w") as f:
+        json.dump(cases, f)
+    outs = {}
+    try:
+        # every child is a fresh interpreter with its own hash seed AND its own execution order of the same calls: any state that
+        # survives a call anywhere in the process (module- or class-level caches, memoised helpers) makes the orders disagree
+        for hs, order in ORDERS:
+            env = dict(os.environ, PYTHONHASHSEED=hs)
+            p = subprocess.run([sys.executable, "-B", "-m", "vf.hashchild", path, order], capture_output=True, text=True, env=env, timeout=600)
+            if p.returncode != 0:
+                raise HarnessError(f"hash-seed child failed: {p.stderr[-2000:]}")
+            outs[(hs, order)] = json.loads(p.stdout)
+    finally:
+        try:
+            os.remove(path)
+            os.rmdir(work)
+        except OSError:
+            pass
+    return outs
+
+
+def compare_children(cases, outs, ctx=None):
+    ref = outs[ORDERS[0]]
+    for k, (case, r0) in enumerate(zip(cases, ref)):
+        if ctx is not None:
+            ctx.begin(case)
+            ctx.called(len(ORDERS))
+        for (hs, order), o in outs.items():
+            if o[k] != r0:
+                v = Violation("hashseed-or-call-order-dependent",
+                              f"{case['cfg']['kind']} {case['job']['op']} (call {k} of {len(cases)}): child with PYTHONHASHSEED={hs} executing the calls in {order} order "
+                              f"gives {o[k]!r} != {r0!r} (seed 0, forward order)"[:900])
+                v.case = {"calls": cases, "index": k}
+                raise v
+        if ctx is not None:
+            ctx.nontrivial_if(True)
+            ctx.label("op:" + case["job"]["op"])
+            ctx.end()
+
+
 def hashseed_custom(ctx, seed, tier, shard, nshards, n):
     from hypothesis import HealthCheck, given, settings
     from hypothesis import seed as hseed
@@ -266,51 +315,24 @@ def hashseed_custom(ctx, seed, tier, shard, nshards, n):
 
     @hseed(seed)
     @settings(max_examples=n, database=None, deadline=None, suppress_health_check=list(HealthCheck))
-    @given(identity_cases())
-    def collect(c):
+    @given(identity_cases(), st.booleans())
+    def collect(c, twin):
         cases.append({"cfg": c["cfg"], "job": c["job"]})
+        if twin:
+            # the same call under a model with another beta: same shapes and player counts, different parameters
+            cfg2 = dict(c["cfg"])
+            cfg2["beta"] = c["cfg"]["beta"] * 0.37
+            cases.append({"cfg": cfg2, "job": c["job"]})
 
     collect()
-    here = os.path.dirname(os.path.dirname(os.path.dirname(os.path.abspath(__file__))))
-    work = os.path.join(here, ".work", f"c14-hash-{os.getpid()}-{shard}")
-    os.makedirs(work, exist_ok=True)
-    path = os.path.join(work, "cases.json")
-    with open(path, "w") as f:
-        json.dump(cases, f)
-    outs = {}
-    try:
-        for hs in ("0", "1", "2", "4242", "random"):
-            env = dict(os.environ, PYTHONHASHSEED=hs)
-            p = subprocess.run([sys.executable, "-B", "-m", "vf.hashchild", path], capture_output=True, text=True, env=env, timeout=600)
-            if p.returncode != 0:
-                raise HarnessError(f"hash-seed child failed: {p.stderr[-2000:]}")
-            outs[hs] = json.loads(p.stdout)
-    finally:
-        try:
-            os.remove(path)
-            os.rmdir(work)
-        except OSError:
-            pass
-    ref = outs["0"]
-    for k, (case, r0) in enumerate(zip(cases, ref)):
-        ctx.begin(case)
-        ctx.called(5)
-        for hs, o in outs.items():
-            if o[k] != r0:
-                v = Violation("hashseed-dependent", f"{case['cfg']['kind']} {case['job']['op']}: PYTHONHASHSEED={hs} gives {o[k]!r} != {r0!r} (seed 0)"[:900])
-                v.case = case
-                raise v
-        ctx.nontrivial_if(True)
-        ctx.label("op:" + case["job"]["op"])
-        ctx.end()
+    compare_children(cases, run_children(cases, shard), ctx)
 
 
 def check_hashcase(case, ctx):
-    """plain replay of a hash-seed case: in-process it can only check that the call is deterministic."""
-    a = guarded_job(mk_model(case["cfg"]), case["job"], "first")
-    b = guarded_job(mk_model(case["cfg"]), case["job"], "second")
-    if a != b:
-        raise Violation("hashseed-dependent", "two identical calls in one process differ")
+    """plain replay: the saved list of calls is executed again in five fresh children (orders / hash seeds) and compared."""
+    cases = case["calls"]
+    compare_children(cases, run_children(cases, "replay"))
+    ctx.called(len(ORDERS) * len(cases))
 
 
 # ------------------------------------------------------------------------------------------------
@@ -387,8 +409,9 @@ PROPERTY = Property(
                rule="2-4 jobs on one shared model, each in its own thread, interleaved at source-line granularity by a generated schedule of <= 6 "
                     "preemption points (sys.settrace + semaphores: one runnable thread at a time); every job's result bit-identical to its solo run; "
                     "non-trivial = at least one preemption took place while the preempted job was inside openskill code"),
-        Clause(name="hash-seed", kind="custom", custom=hashseed_custom, check=check_hashcase, quick=200, thorough=2000, shards_quick=2, shards_thorough=8,
-               rule="generated calls serialised and executed in child interpreters with PYTHONHASHSEED in {0,1,2,4242,random}; results compared exactly"),
+        Clause(name="hash-seed-and-call-order", kind="custom", custom=hashseed_custom, check=check_hashcase, quick=400, thorough=4000, shards_quick=4, shards_thorough=16,
+               rule="generated calls (some duplicated under a model with another beta) serialised and executed in five fresh child interpreters, each with its own "
+                    "PYTHONHASHSEED (0, 1, 2, 4242, random) and its own execution order (forward, reverse, rotated, evens-first); results compared exactly per call"),
         Clause(name="free-running-threads", kind="custom", custom=stress_custom, quick=0, thorough=400, shards_thorough=4,
                rule="sampled (OS-scheduled) stress: 2k threads x 5 repetitions on one model with switch interval 1e-6; can only add violations"),
     ],
